@@ -148,6 +148,37 @@ def init_job(interp, c, case):
             c.failures[-1]["replay"] = {"kind": "reinit", "which": kind, "how": how}
 
 
+def follow_job(interp, c, case):
+    """an interface built on a model keeps following the model's value edits (it shares the model's arrays), also across a
+    repeated initialisation - so that any history ending in the same definition simulates like a fresh model"""
+    kind, reinit, safe = case
+    T = interp.load("bioscrape.types")
+    S = interp.load("bioscrape.simulator")
+    M = _mk(interp, "plain")
+    M.py_initialize()
+    itf = S.ns["SafeModelCSimInterface" if safe else "ModelCSimInterface"](M)
+    if reinit:
+        M.py_initialize()
+    a_new, k_new = c.real("a_new", lo=0), c.real("k_new", lo=0)
+    if kind == "species":
+        M.set_species({"A": a_new})
+    else:
+        M.set_params({"k1": k_new})
+    idx, pidx = M.get_species2index(), M.get_params2index()
+    x0 = itf.get_initial_state()
+    pv = itf.py_get_param_values()
+    tag = "%s interface built before %s%s" % ("safe" if safe else "plain", "a second initialisation and " if reinit else "",
+                                             "set_species" if kind == "species" else "set_params")
+    if kind == "species":
+        ok = c.prove(x0[idx["A"]] == a_new, "%s starts from the model's new initial condition" % tag,
+                     info={"sig": "interface does not follow set_species%s" % (" after re-initialisation" if reinit else ""), "what": tag})
+    else:
+        ok = c.prove(pv[pidx["k1"]] == k_new, "%s uses the model's new parameter value" % tag,
+                     info={"sig": "interface does not follow set_params%s" % (" after re-initialisation" if reinit else ""), "what": tag})
+    if ok is False:
+        c.failures[-1]["replay"] = {"kind": "follow", "what": kind, "reinit": bool(reinit), "safe": bool(safe)}
+
+
 def edit_job(interp, c, case):
     T = interp.load("bioscrape.types")
     S = interp.load("bioscrape.simulator")
@@ -362,6 +393,8 @@ def check(tier):
                 continue
             ck.add("init/%s/%s" % (kind, how), "harness.C08", "init_job", dict(cases=[(kind, how)]), fresh=True)
     ck.add("edits", "harness.C08", "edit_job", dict(cases=[()]), fresh=True)
+    ck.add("interface-follows-model", "harness.C08", "follow_job",
+           dict(cases=[(k_, r_, s_) for k_ in ("species", "params") for r_ in (False, True) for s_ in (False, True)]), fresh=True)
     ck.add("deterministic", "harness.C08", "rhs_job", dict(cases=[()]), fresh=True)
     for seed in (5489, 1, 2 ** 63 + 12345) + ((42, 2 ** 64 - 1) if tier == "thorough" else ()):
         ck.add("rng/%d" % seed, "harness.C08", "rng_job", dict(cases=[(seed,)]), fresh=True, exact=True)
